@@ -770,6 +770,7 @@ class Variations:
         self.options_pad64 = kw.get("options_pad64", True)
         self.chnk_slack = kw.get("chnk_slack", 0)
         self.write_slnk_always = kw.get("write_slnk_always", False)
+        self.inner_vers = kw.get("inner_vers")  # VERS written into nested containers (embedded projects, effects); None = same as outer
 
 
 def encode(desc, var=None):
@@ -994,7 +995,7 @@ def encode_payload(mt, m, var):
 
 
 def var_inner(var):
-    v = Variations(vers=var.vers, options_pad64=var.options_pad64)
+    v = Variations(vers=var.inner_vers or var.vers, options_pad64=var.options_pad64)
     return v
 
 
@@ -1039,6 +1040,6 @@ def encode_sampler(mt, m, var):
     for j in range(4):
         out.append((0x105 + j, encode_envelope(p["effect_control_envelopes"][j], 0), None, None))
     if p["effect"] is not None:
-        eff = chunktools.build([(b"SSYN", b""), (b"VERS", enc_version(var.vers))] + encode_module_chunks(p["effect"]["module"], False, var_inner(var), 1) + [(b"SEND", b"")])
+        eff = chunktools.build([(b"SSYN", b""), (b"VERS", enc_version(var_inner(var).vers))] + encode_module_chunks(p["effect"]["module"], False, var_inner(var), 1) + [(b"SEND", b"")])
         out.append((0x10A, eff, None, None))
     return out
